@@ -109,3 +109,33 @@ PROPS["C07"] = {
         ],
     },
 }
+
+PROPS["C18"] = {
+    "pkg": "c18", "level": "exploration",
+    "technique": "harness-owned scheduling of the pool's synchronisation points (verif yield hooks + goroutine-state introspection): exhaustive DFS over the choice tree for "
+                 "small worker/task counts, rapid-generated schedules and call sequences beyond, free-running property tests and stress loops; oracle = exact results, "
+                 "return-or-deadlock decided at quiescence, and a worker census after the calls",
+    "level_text": "Every pool goroutine and the caller park at each yield point; the harness decides who moves next and waits for quiescence (all parked or blocked in the "
+                  "runtime) before each decision, so 'the caller never returns' and 'a worker is lost' are facts of a quiescent state, not timeouts. Small configurations "
+                  "(W<=2, count<=2, up to two calls; more in the thorough tier) are enumerated completely; larger ones are sampled. A census (W barrier tasks in flight at "
+                  "once) proves that all workers are back after the calls.",
+    "level_note": "Not owned: the runtime's choice among several ready select cases and among several workers waiting on the command channel; a replay therefore re-executes "
+                  "the recorded choices up to 200 times and counts as reproduced if any attempt fails. Exhaustive = all harness choices; runtime tie-breaks are sampled.",
+    "rule": "case = (workers, call sequence, schedule); class = (W, call kinds, total count, whether a caller step separated a worker's counter update from its notification); "
+            "non-trivial iff such a separation occurred or the pool was reused for more than one call; exhaustive spaces are listed under exhaustive_subspaces",
+    "assumptions": ["goroutine states reported by runtime.Stack are exact (stop-the-world snapshot)"],
+    "tiers": {
+        "quick": [
+            {"run": "^TestExhaustiveSmall$", "shards": 14, "timeout": 900},
+            {"run": "^TestScheduled$", "checks": 1500, "shards": 1},
+            {"run": "^TestFree$", "checks": 300, "shards": 1},
+            {"run": "^TestStress$", "shards": 1},
+        ],
+        "thorough": [
+            {"run": "^TestExhaustiveSmall$", "shards": 16, "timeout": 7000},
+            {"run": "^TestScheduled$", "checks": 60000, "shards": 4},
+            {"run": "^TestFree$", "checks": 6000, "shards": 2},
+            {"run": "^TestStress$", "shards": 4},
+        ],
+    },
+}
